@@ -13,7 +13,8 @@
 //! corruption of three valid messages (signature, signed attributes / signer info, eContent and the
 //! rest); (D, on by default, `--local 0` to skip) the local shortcut: honest (`loc`), across an identity update of
 //! the local child, and with a contact naming another child's handle (`mallory`, finding F12a, fixed by /repo 1a6ebc01:
-//! must be refused); plus a probe of the publication shortcut (candidate F12b).
+//! must be refused), and the publication shortcut: honest, the CA `pz` named like a publisher registered with a remote ID key
+//! (finding F12b, fixed by /repo 346cb17c: must be refused), and across an identity update of a local CA.
 //!
 //! Per message one Coq `case` (ident/IdentCheck.v): abstracted parent / repository state before and
 //! after (children with registered ID key, entitlement, used keys, suspension, last status entry;
@@ -632,7 +633,7 @@ fn main() {
     let stats = json!({
         "scenario": "c12", "seed": args.seed, "tier": args.tier,
         "evaluations": out.w.total, "distinct_nontrivial": out.distinct.len(),
-        "rule": "one case per message fed to the real rfc6492 / rfc8181 (harness-built CMS; keys from the runtime's signer and from a second harness-owned KrillSigner): claimed sender x signing key {registered, another child's/publisher's, replaced identity, random} x recipient / URL x request kind, before and after identity updates on both sides and across an implicit unsuspend; then single-bit flips of valid messages (quick: positions sampled per region signature / signed attributes / eContent / rest; thorough: every bit) - TESTING of decoder and signature check, not proof; the local shortcut (honest child, identity update of a local child, and the F12a contact which must be refused). non-trivial = the claimed sender is a registered child / publisher, so that the key decision is exercised; distinct = distinct (protocol, sender, recipient, signing key, request, flipped bit)",
+        "rule": "one case per message fed to the real rfc6492 / rfc8181 (harness-built CMS; keys from the runtime's signer and from a second harness-owned KrillSigner): claimed sender x signing key {registered, another child's/publisher's, replaced identity, random} x recipient / URL x request kind, before and after identity updates on both sides and across an implicit unsuspend; then single-bit flips of valid messages (quick: positions sampled per region signature / signed attributes / eContent / rest; thorough: every bit) - TESTING of decoder and signature check, not proof; the local shortcut (honest child, identity update of a local child, the F12a contact and the F12b namesake CA which must be refused). non-trivial = the claimed sender is a registered child / publisher, so that the key decision is exercised; distinct = distinct (protocol, sender, recipient, signing key, request, flipped bit)",
         "stream_distribution": out.dist, "outcome_distribution": out.outcome_dist, "flip_region_distribution": ex.flip_dist,
         "flips_not_refused": ex.accepted_flips, "local8181_probe": ex.local8181_probe, "messages": ex.ua, "local": do_local,
         "samples": out.samples, "impl_failures": out.impl_failures, "evals": EVALS,
@@ -972,8 +973,51 @@ fn scenario(args: &Args, dir: &std::path::Path, out: &mut Out, ex: &mut Extra) {
         local_sync(&mut w, out, "loc", "loc", "local child after ca_update_id, the parent now has the new ID certificate");
     }
 
-    // ---- probe (not a case): the publication shortcut serves a local CA as the publisher that carries its handle
+    // ---- stream D, publication: the local RFC 8181 shortcut (repaired by /repo 346cb17c)
     if do_local {
+        let local_repo = |w: &mut World, out: &mut Out, ca: &str, what: &str, op: &dyn Fn(&World) -> krill::commons::KrillResult<()>| -> (bool, Vec<String>, Vec<String>) {
+            let pre = observe_repo(w, ver0);
+            let res = op(w);
+            let post = observe_repo(w, ver0);
+            let hn = w.it.handle(ca);
+            let objs = |r: &ARepo| -> Vec<(Vec<u64>, u64)> { r.pubs.iter().find(|p| p.0 == hn).map(|p| p.1.objs.clone()).unwrap_or_default() };
+            let (o0, o1) = (objs(&pre), objs(&post));
+            let served = res.is_ok() || o0 != o1;
+            // the queries the repository shows to have been served: the list query, then one delta with the difference
+            let mut qs: Vec<String> = vec!["QList".into()];
+            if served {
+                let m0: BTreeMap<Vec<u64>, u64> = o0.iter().cloned().collect();
+                let m1: BTreeMap<Vec<u64>, u64> = o1.iter().cloned().collect();
+                let mut els: Vec<String> = Vec::new();
+                for (u, o) in &m1 { if !m0.contains_key(u) { els.push(format!("EPub {} {o}", coq_nlist(u))); } }
+                for (u, o) in &m1 { if let Some(old) = m0.get(u) { if old != o { els.push(format!("EUpd {} {old} {o}", coq_nlist(u))); } } }
+                for (u, old) in &m0 { if !m1.contains_key(u) { els.push(format!("EWdr {} {old}", coq_nlist(u))); } }
+                if !els.is_empty() { qs.push(format!("(QDelta {})", coq_list(&els))); }
+            }
+            let ca_pk = w.sys.ca(ca).unwrap().id_cert().public_key.clone();
+            let cid = w.adopt_id(&ca_pk, &format!("{ca}-id"));
+            let registered = pre.pubs.iter().find(|p| p.0 == hn).map(|p| p.1.id);
+            let who_term = if served { format!("(Some {hn})") } else { "None".into() };
+            let (pre_t, post_t) = (coq_repo(&pre), coq_repo(&post));
+            let term = if pre_t == post_t { format!("(let p := {pre_t} in CLocal8181 p (mkCaller {hn} {} 0) {} p {who_term})", cid.n, coq_list(&qs)) }
+                       else { format!("(CLocal8181 {pre_t} (mkCaller {hn} {} 0) {} {post_t} {who_term})", cid.n, coq_list(&qs)) };
+            if !served && pre.raw != post.raw {
+                out.impl_failures.push(json!({"index": out.w.total, "class": {"refused_but_raw_state_changed": true, "protocol": "rfc8181", "path": "local-shortcut-8181"},
+                    "what": format!("local publication exchange of '{ca}' that was not served changed the stored repository content / publisher details")}));
+            }
+            let uris = |r: &ARepo| -> Vec<String> { r.pubs.iter().find(|p| p.0 == hn).map(|p| p.1.objs.iter().map(|(u, o)| format!("{u:?}={o}")).collect()).unwrap_or_default() };
+            let rec = json!({"protocol": "rfc8181", "stream": "D-local-8181", "caller_ca": ca, "caller_id_key": cid.n, "publisher": ca, "registered_key_of_publisher": registered,
+                "what": what, "result": format!("{:?}", res.as_ref().map_err(|e| e.to_string())), "served_as": if served { Some(ca) } else { None },
+                "queries_seen_at_repository": qs, "outcome": if served { "served" } else { "refused" }, "state_changed": pre != post,
+                "objects_of_publisher_before": uris(&pre), "objects_of_publisher_after": uris(&post),
+                "class": {"path": "local-shortcut-8181", "protocol": "rfc8181", "handle_names_foreign_publisher": registered.map(|k| k != cid.n).unwrap_or(false)}});
+            out.push(term, rec, "D-local-8181", Some(format!("local8181|{ca}|{}", out.w.total)));
+            (served, uris(&pre), uris(&post))
+        };
+        // honest: mallory's publisher was registered with the ID certificate she still has
+        local_repo(&mut w, out, "mallory", "honest local CA, repository sync", &|w| w.sys.sync_repo("mallory").map(|_| ()));
+        // F12b (fixed by /repo 346cb17c): the publisher pz is registered with a harness-owned ID key (a remote CA) and holds an
+        // object; a CA of this instance that is also called pz must not be served as that publisher
         let (pid, pcert) = w.new_id(Which::Second, "pz-id");
         let req = PublisherRequest::new(Base64::from_content(pcert.to_bytes().as_ref()), publisher_handle("pz"), None);
         w.sys.krill.repo_manager().create_publisher(req, &w.sys.actor).expect("create publisher pz");
@@ -981,24 +1025,22 @@ fn scenario(args: &Args, dir: &std::path::Path, out: &mut Out, ex: &mut Extra) {
         d.add_publish(Publish::new(None, obj_uri("pz", "remote.cer"), content("object of the remote publisher pz")));
         let bytes = sign8181(&w, publication::Message::delta(d), &pid).expect("sign");
         let r = w.sys.krill.repo_manager().rfc8181(publisher_handle("pz"), Bytes::from(bytes), &w.sys.krill);
-        let before: Vec<String> = w.sys.krill.repo_manager().list(&publisher_handle("pz")).map(|l| l.elements().iter().map(|e| e.uri().to_string()).collect()).unwrap_or_default();
-        // a CA of this instance that happens to be called like the remote publisher, with the local repository as its repository
-        let steps = (|| -> krill::commons::KrillResult<()> {
-            w.sys.krill.ca_manager().init_ca(ca_handle("pz"), &w.sys.krill)?;
+        w.sys.krill.ca_manager().init_ca(ca_handle("pz"), &w.sys.krill).expect("local CA pz");
+        let (served, before, after) = local_repo(&mut w, out, "pz", "CA 'pz' of this instance, named like the publisher 'pz' that is registered with another (remote) ID key: update_repo with check, then repository sync", &|w| {
             let resp = w.sys.krill.repo_manager().repository_response(&publisher_handle("pz"), &w.sys.krill)?;
             let contact = krill::api::admin::RepositoryContact::try_from_response(resp).map_err(krill::commons::error::Error::rfc8183)?;
             w.sys.krill.ca_manager().update_repo(ca_handle("pz"), contact, true, &w.sys.actor, &w.sys.slow)?;
             w.sys.sync_repo("pz").map(|_| ())
-        })();
-        let after: Vec<String> = w.sys.krill.repo_manager().list(&publisher_handle("pz")).map(|l| l.elements().iter().map(|e| e.uri().to_string()).collect()).unwrap_or_default();
-        let ca_pk = w.sys.ca("pz").ok().map(|c| c.id_cert().public_key.key_identifier().to_string());
-        if args.get_u64("f12b", 0) == 1 && !before.is_empty() && after.len() < before.len() {
-            out.impl_failures.push(json!({"index": null, "class": {"path": "local-shortcut-8181", "ca_handle_equals_foreign_publisher": true},
-                "what": format!("publication shortcut: the CA 'pz' of this instance (ID key {:?}) was served as the publisher 'pz' registered with ID key {}; its repository sync withdrew {:?}", ca_pk, pid.kid, before)}));
-        }
+        });
         ex.local8181_probe = json!({"publisher": "pz", "publisher_id_key": pid.kid.to_string(), "remote_publish_ok": r.is_ok(),
-            "objects_before_local_ca_sync": before, "local_ca_id_key": ca_pk, "local_ca_steps": format!("{:?}", steps.map_err(|e| e.to_string())),
-            "objects_after_local_ca_sync": after});
+            "local_ca_served": served, "objects_before_local_ca_exchange": before, "objects_after_local_ca_exchange": after});
+        // identity update at a local CA: `loc` has replaced its ID key since its publisher was registered; refused until
+        // the publisher is registered again with the new ID certificate (remove + add, as for a remote publisher)
+        local_repo(&mut w, out, "loc", "local CA after ca_update_id, its publisher still has the previous ID certificate", &|w| w.sys.sync_repo("loc").map(|_| ()));
+        w.sys.krill.repo_manager().remove_publisher(publisher_handle("loc"), &w.sys.actor, &w.sys.krill).expect("remove publisher loc");
+        let preq = w.sys.ca("loc").unwrap().publisher_request();
+        w.sys.krill.repo_manager().create_publisher(preq, &w.sys.actor).expect("re-add publisher loc");
+        local_repo(&mut w, out, "loc", "local CA after ca_update_id, its publisher registered again with the new ID certificate", &|w| w.sys.sync_repo("loc").map(|_| ()));
     }
 
 }
